@@ -643,7 +643,7 @@ _TR6 = (" TRANSLATED CODE, round 6: the subset now has counting loops (folds ove
         "indexing of byte slices and of package-level tables with Go's bounds panic explicit, switch, on-demand min/max helpers; the "
         "definitions that were only pinned at machine level in round 5 are proved equal to the Nat/Int hand models.")
 for _k, _what in (("C18", "the page request against Rpc.pageRequest (needs the page-size guard: negative witness without it), the reward-history epoch, and the page-size guard of ALL 27 paged getters as one fact list (pageGuards_translation_refines_model: each has a bound <= RpcMaxPageSize)"),
-                  ("C14", "nothing new (filterBlocksToCommit needs slices of block pointers with append: outside the subset)"),
+                  ("C14", "accountPool.filterBlocksToCommit (range loop with break over the slice of block pointers projected to BlockType, make / self-append / x[:0]) proved equal to the model loop Pool.filterGo for every list, by induction"),
                   ("C12", "greaterDifficulty (downward loop over 8 bytes, panics on shorter slices), the plain-send base cost of GetBasePlasmaForAccountBlock, the three inequalities of enoughPlasma composed against Pow.enoughPlasma"),
                   ("C05", "ToTime offsets against Ticker.toTime, the TickMultiplier tail against Consensus.tickMultiplier, the two timestamp tests of rawMomentumVerifier.timestamp"),
                   ("C15", "nothing new"),
